@@ -2032,7 +2032,9 @@ def judge_multi(ctx, world, stream, scens, envs):
                 ctx.stat('exception-out-of-connectionMade:' + s.connect_crash)
             pref = [unhx(x) for x in d['pref']] if d.get('pref') is not None else None
             for key, what in monitor(world, d['unix'], evs, early, pref):
-                world.scenario_inputs.setdefault(key, inp)
+                cands = world.scenario_inputs.setdefault(key, [])
+                if len(cands) < 40:
+                    cands.append(inp)
                 ctx.violation(key, what + ' [%s; other connections of the same process are alive in this scenario]' % who,
                               inp=inp, observed=impl, expected='see the property statement of C07')
             if s.escapes:
@@ -2140,7 +2142,7 @@ def gen_kind_flips():
     for order in orders:
         for tk in ('fresh', 'shared'):
             for fd in (b'ERROR', b'AGREE_UNIX_FD'):
-                for pre in ([], [b'REJECTED']):
+                for pre in ([], [b'REJECTED'], [b'REJECTED', b'REJECTED']):
                     sessions, feeds = [], []
                     for ch in order:
                         unix = ch == 'U'
@@ -2243,14 +2245,20 @@ def confirm_replays(ctx, world):
         if keys is None or v['key'] in keys:
             continue                      # reproduces by itself (or could not be tried: left as it is)
         ctx.stat('replay-needs-history')
-        cand = scen.get(v['key'])
-        if cand is not None:
+        # scenarios whose transports all have a class of the scenario's own first (nothing outside them can matter), small first
+        cands = sorted(scen.get(v['key'], []),
+                       key=lambda c: (any(d['tkind'] != 'fresh' for d in c['sessions']), len(json.dumps(c))))
+        done = False
+        for cand in cands[:3]:
             budget -= 1
             k2 = fresh_process_keys(ctx.repo, cand)
             if k2 is not None and v['key'] in k2:
                 v['input'] = cand
                 v['what'] += ' [history-dependent: the single connection alone does not show it; replay input = a scenario of several connections]'
-                continue
+                done = True
+                break
+        if done:
+            continue
         v['input'] = {'kind': 'process-history', 'seed': ctx.seed, 'tier': ctx.tier, 'case': inp}
         v['what'] += ' [history-dependent: shows only after other cases ran in the same process; replay runs the whole sequence again]'
 
